@@ -64,7 +64,8 @@ def profile(prop):
         p["ops"].update(reput=2, edit_restore=2)
         p["huge_cell"] = 0.06
     elif prop == "C07":
-        p["ops"].update(reject_all=5, add=8, remove=4, reject_some=0)
+        p["ops"].update(reject_all=5, add=8, remove=4, reject_some=0, edit_restore=3)
+        p["session"].update(ro=1.5, stale=0.8)
         p["n_choices"] = [14, 14, 2, 3, 5, 9]
         p["init"].update(foreign_hole=0.6)
         p["dup_add"] = 0.15
@@ -213,6 +214,10 @@ class Gen:
                 else:
                     C = self.block(exclude=used)
                     s = {"C": C}
+                    if C["t"] == "optical" and C["chans"] and rng.random() < 0.3:
+                        # another writer may fill the 32-byte name field completely (no terminator)
+                        ch = rng.choice(C["chans"])
+                        ch[rng.choice(("lens", "type", "name"))] = gen.text(rng, 33, "max")
                     if C["t"] in gen.SEGMENTED and rng.random() < 0.25:
                         s["run_order"] = "reversed"  # another writer's order of the runs
                     code = gen.code_of(C)
@@ -488,7 +493,8 @@ def gen_run(rng, prop, index, tier):
         "tz": rng.choice(seams.TZS),
         "epoch": rng.randint(86400 * 800, 2**31 - 86400 * 800),
         "paths": rng.choice(("str", "str", "Path", "mixed", "rel", "tilde")),
-        "filenos": rng.random() < 0.5,
+        "filenos": True,  # real files always have a descriptor
+        "clock": rng.choice(("normal",) * 7 + ("frozen", "frozen", "slow")),
         "mtime_gran": rng.choice((1e-9, 1e-9, 1.0, 2.0)),
     }
     ops = Gen(rng, prof, index, tier, prop).run()
